@@ -215,6 +215,8 @@ def h_bookkeeping(e, cfg):
             # an addition the actual shape contradicts must be refused (a strict record may also refuse more)
             e.oblige("add:incompatible-is-refused", compatible or raised is not None, step=step, raised=str(raised), compatible=compatible)
             if raised is None:
+                # an accepted addition was by definition compatible: the tensor it was added to stays valid
+                e.oblige("add:accepted-keeps-valid", bool(st.valid), step=step, constraints=str(cons1), shape=str(shape0))
                 e.oblige("add:recorded", cons1 == {**cons0, dim: size}, step=step)
                 e.oblige_eq("add:data-unchanged", v1, a0, step=step)
         if is_remove and init:
